@@ -46,11 +46,13 @@ def _pipe_one(idx):
     the daemon looks (one event, the reader refills its buffer in the middle of frames): identical answers in identical order"""
     r = C.rng("xdiff", "pipe", idx)
     tr = r.choice(["raw", "ws", "ws", "uds"])
-    n = r.randrange(8, 45)
+    n = r.randrange(8, 45) if idx % 3 else r.randrange(60, 110)
     msgs = []
     paths = []
     for i in range(n):
-        k = r.randrange(6)
+        # (every third session is a long burst of requests with long answers: more output than one write buffer holds is
+        # produced within one run of the read loop)
+        k = r.randrange(6) if idx % 3 else r.choice([2, 3, 3, 3, 4])
         pad = "x" * r.choice([0, 3, 17, 60, 120, 200, 260])
         if k == 0 or not paths:
             p_ = "p%d/%s" % (i, pad[:r.randrange(0, 40)])
